@@ -115,6 +115,7 @@ ParamSpec paramSpecOf(const Op &op) {
     }
     size_t count;
     if (nd == 0) { count = static_cast<size_t>(delta < 0 ? -delta : delta); if (count > 300) count = 300; s.consistent = true; }
+    else if (delta == -999999) { count = 0; s.consistent = (prod == 0); }      // empty data with an explicit shape
     else {
         const size_t cap = s.type == 2 ? 600 : 3000;
         size_t capped = prod > cap ? cap : prod;     // never build huge arrays; a capped array is inconsistent on purpose
@@ -140,6 +141,11 @@ static ezc3d::ParametersNS::GroupNS::Parameter makeParameter(const ParamSpec &s,
     } catch (...) { setOutcome = classifyCurrentException(); }
     if (s.lock) p.lock();
     return p;
+}
+
+static bool hasAnalogGap(const ezc3d::c3d &c, const Shape &s) {
+    for (size_t f = 0; f < c.data().nbFrames(); ++f) if (c.data().frame(f).analogs().nbSubframes() != s.nSub) return true;
+    return false;
 }
 
 // ---- frames ------------------------------------------------------------------------------------
@@ -233,14 +239,17 @@ Outcome Interp::exec(const Op &op) {
             std::unique_ptr<ezc3d::c3d> n(new ezc3d::c3d(p));
             obj = std::move(n);
         }
-        else if (k == "declp" || k == "decla") {
-            const bool isP = k == "declp";
+        else if (k == "declp" || k == "decla" || k == "declax") {
+            const bool isP = k == "declp";   // declax: decla never excluded
             std::string base = isP ? pointNameOf(op.arg(0)) : channelNameOf(op.arg(0));
             out.note = base + std::string(static_cast<size_t>((op.arg(1) < 0 ? -op.arg(1) : op.arg(1)) % 4), ' ');
             Shape s = shapeOf(*obj);
             const auto &ex = isP ? s.plabels : s.alabels;
             bool exists = false; for (auto &e : ex) if (rtrim(e) == base) exists = true;
             if (exists && s.nFrames == 0) { out.skipped = true; out.note = "already declared (no data): undocumented, not called"; return out; }
+            if (!isP && hasAnalogGap(*obj, s) && openFindings.count("KF-GAPCOL") && k == "decla") {
+                excluded["KF-GAPCOL"]++; out.skipped = true; out.note = "excluded: known finding KF-GAPCOL"; return out;
+            }
             out.mutating = true;
             if (exists) out.note += "|exists";
             if (isP) obj->point(out.note.substr(0, out.note.find('|'))); else obj->analog(out.note.substr(0, out.note.find('|')));
@@ -337,12 +346,15 @@ Outcome Interp::exec(const Op &op) {
                 }
             }
         }
-        else if (k == "pcol" || k == "acol") {
+        else if (k == "pcol" || k == "acol" || k == "acolx") {
             // pcol <nameBase> <ncols> <dev> <vseed> ; dev: 0 none,1 empty vector,2 frames-1,3 frames+1,4 first frame empty,
             // 5 first name exists,6 second name exists,7 ragged (later frame one column short), 8 reuse last caller vector
             // acol additionally: 9 sub-1, 10 sub+1
             const bool isP = k == "pcol";
             Shape s = shapeOf(*obj);
+            if (!isP && hasAnalogGap(*obj, s) && openFindings.count("KF-GAPCOL") && k == "acol") {
+                excluded["KF-GAPCOL"]++; out.skipped = true; out.note = "excluded: known finding KF-GAPCOL (channel column on a data set with empty gap frames)"; return out;
+            }
             long long nb = op.arg(0) < 0 ? -op.arg(0) : op.arg(0);
             size_t ncols = static_cast<size_t>(1 + (op.arg(1) < 0 ? -op.arg(1) : op.arg(1)) % 3);
             long long dev = (op.arg(2) < 0 ? -op.arg(2) : op.arg(2)) % 11;
@@ -353,6 +365,9 @@ Outcome Interp::exec(const Op &op) {
             out.note = "match";
             if (dev == 5 && !existing.empty()) { names[0] = existing[r.below(existing.size())]; out.note = "exists0"; }
             if (dev == 6 && !existing.empty() && ncols >= 2) { names[1] = existing[r.below(existing.size())]; out.note = "exists1"; }
+            if (out.note == "match")
+                for (size_t j = 0; j < names.size() && out.note == "match"; ++j)
+                    for (auto &e : existing) if (rtrim(e) == names[j]) { out.note = "exists" + std::to_string(j); break; }
             size_t nF = s.nFrames;
             if (dev == 2 && nF > 0) { --nF; out.note = "frames-1"; }
             if (dev == 3) { ++nF; out.note = "frames+1"; }
@@ -431,7 +446,7 @@ Outcome Interp::exec(const Op &op) {
             std::unique_ptr<ezc3d::c3d> n(new ezc3d::c3d(lastSavePath));
             obj = std::move(n);
         }
-        else if (k == "obs") {}
+        else if (k == "obs" || k == "look") {}
         else { out.skipped = true; out.note = "unknown op"; }
     } catch (...) {
         Outcome e = classifyCurrentException();
